@@ -17,10 +17,19 @@ pub trait ArgVisitor {
     fn visit(&mut self, m: &ast::Method, a: &ast::Arg)
         ensures final(self).log() == old(self).log().push((*m, *a));
 }
-// mutable variant: the callback sees the node as it is when offered, may change it, but keeps its children
-// (frame assumed of the callback; proved for the closure of resolve_types: clause C05.step_frame)
+// mutable variant: the callback sees the node as it is when offered, may change it (as its step relation allows), keeps
+// its children (frame assumed of the callback; proved for the closure of resolve_types), and maintains an invariant of
+// its own choosing between visits
 pub trait TypeMutVisitor {
     spec fn log(&self) -> Seq<ast::Type>;
+    spec fn inv(&self) -> bool;
+    spec fn step_fn(&self) -> spec_fn(ast::Type, ast::Type) -> bool;
     fn visit(&mut self, t: &mut ast::Type)
-        ensures final(self).log() == old(self).log().push(*old(t)), final(t).generic_types == old(t).generic_types;
+        requires old(self).inv()
+        ensures
+            final(self).inv(),
+            final(self).log() == old(self).log().push(*old(t)),
+            final(t).generic_types == old(t).generic_types,
+            (old(self).step_fn())(*old(t), *final(t)),
+            final(self).step_fn() == old(self).step_fn();
 }
